@@ -47,6 +47,7 @@ try:
         cmd += ["--only", a.only]
     p = subprocess.run(cmd, cwd=verif, env=env, capture_output=True, text=True)
     rc = p.returncode
+    open('/tmp/seedrun-%s-%s.out' % (a.seed, a.prop), 'w').write(p.stdout + p.stderr)
     if rc == 2 and "Traceback" in (p.stdout + p.stderr):
         print((p.stdout + p.stderr)[-3000:])
     keep = [l for l in p.stdout.splitlines() if re.search(r"VIOLATION|KNOWN-FINDING|INCONCLUSIVE|violation in|INPUT|  c\d\d_|verified within|MACHINERY", l)]
